@@ -114,6 +114,40 @@ namespace C13
     return double(std::int64_t(h % 2000001) - 1000000) / 1000000.0; // in [-1,1], 6 decimals
   }
 
+
+  // coordinate keys of the DOFs of a space: (x, y) in 2D; (x, y + 16 z) in 3D (all shipped 3D test domains lie in |y| < 8)
+  template<int dim_> struct Coords;
+  template<> struct Coords<2>
+  {
+    template<typename V, typename Sp> static void project(V& kx, V& ky, const Sp& space)
+    {
+      auto fx = Analytic::create_lambda_function_scalar_2d([](double x, double) { return x; });
+      auto fy = Analytic::create_lambda_function_scalar_2d([](double, double y) { return y; });
+      Assembly::Interpolator::project(kx, fx, space); Assembly::Interpolator::project(ky, fy, space);
+    }
+    template<typename V, typename Sp> static void project_lin(V& v, const Sp& space)
+    {
+      auto fl = Analytic::create_lambda_function_scalar_2d([](double x, double y) { return 1.0 + 2.0 * x - y; });
+      Assembly::Interpolator::project(v, fl, space);
+    }
+    static double lin(double kx, double ky) { return 1.0 + 2.0 * kx - ky; }
+  };
+  template<> struct Coords<3>
+  {
+    template<typename V, typename Sp> static void project(V& kx, V& ky, const Sp& space)
+    {
+      auto fx = Analytic::create_lambda_function_scalar_3d([](double x, double, double) { return x; });
+      auto fy = Analytic::create_lambda_function_scalar_3d([](double, double y, double z) { return y + 16.0 * z; });
+      Assembly::Interpolator::project(kx, fx, space); Assembly::Interpolator::project(ky, fy, space);
+    }
+    template<typename V, typename Sp> static void project_lin(V& v, const Sp& space)
+    {
+      auto fl = Analytic::create_lambda_function_scalar_3d([](double x, double y, double z) { return 1.0 + 2.0 * x - (y + 16.0 * z); });
+      Assembly::Interpolator::project(v, fl, space);
+    }
+    static double lin(double kx, double ky) { return 1.0 + 2.0 * kx - ky; }
+  };
+
   template<typename DomainLevel_>
   void run(SimpleArgParser& args, Control::Domain::DomainControl<DomainLevel_>& domain, std::uint64_t data_seed, const String& parti_info, const String& chosen_levels)
   {
@@ -156,12 +190,7 @@ namespace C13
 
     // coordinate keys of the local DOFs
     LocalVector kx, ky;
-    {
-      auto fx = Analytic::create_lambda_function_scalar_2d([](double x, double) { return x; });
-      auto fy = Analytic::create_lambda_function_scalar_2d([](double, double y) { return y; });
-      Assembly::Interpolator::project(kx, fx, the_domain_level.space);
-      Assembly::Interpolator::project(ky, fy, the_domain_level.space);
-    }
+    Coords<ShapeType::dimension>::project(kx, ky, the_domain_level.space);
     std::fprintf(g_log, "{\"t\":\"info\",\"rank\":%d,\"nprocs\":%d,\"ndofs_local\":%lu,\"levels_physical\":%lu,\"levels_virtual\":%lu,\"chosen_levels\":\"%s\",\"parti\":\"%s\"}\n",
       comm.rank(), comm.size(), (unsigned long)kx.size(), (unsigned long)domain.size_physical(), (unsigned long)domain.size_virtual(),
       clean(chosen_levels).c_str(), clean(parti_info).c_str());
@@ -215,17 +244,11 @@ namespace C13
       SystemLevelType& lvl_f = *system_levels.at(i);
       const int lev_f = domain.at(i)->get_level_index();
       LocalVector fx, fy;
-      {
-        auto fxx = Analytic::create_lambda_function_scalar_2d([](double x, double) { return x; });
-        auto fyy = Analytic::create_lambda_function_scalar_2d([](double, double y) { return y; });
-        Assembly::Interpolator::project(fx, fxx, domain.at(i)->space);
-        Assembly::Interpolator::project(fy, fyy, domain.at(i)->space);
-      }
+      Coords<ShapeType::dimension>::project(fx, fy, domain.at(i)->space);
       {
         // the fine interpolant of the coarse-space function used below (expected result of its prolongation)
         LocalVector lin;
-        auto fl = Analytic::create_lambda_function_scalar_2d([](double x, double y) { return 1.0 + 2.0 * x - y; });
-        Assembly::Interpolator::project(lin, fl, domain.at(i)->space);
+        Coords<ShapeType::dimension>::project_lin(lin, domain.at(i)->space);
         dump_vec((String("lin_interp_L") + stringify(lev_f)).c_str(), lin, fx, fy);
       }
       GlobalSystemVector d_f = lvl_f.matrix_sys.create_vector_r();
@@ -237,18 +260,13 @@ namespace C13
         SystemLevelType& lvl_c = *system_levels.at(i + 1);
         const int lev_c = domain.at(i + 1)->get_level_index();
         LocalVector cx, cy;
-        {
-          auto fxx = Analytic::create_lambda_function_scalar_2d([](double x, double) { return x; });
-          auto fyy = Analytic::create_lambda_function_scalar_2d([](double, double y) { return y; });
-          Assembly::Interpolator::project(cx, fxx, domain.at(i + 1)->space);
-          Assembly::Interpolator::project(cy, fyy, domain.at(i + 1)->space);
-        }
+        Coords<ShapeType::dimension>::project(cx, cy, domain.at(i + 1)->space);
         GlobalSystemVector r_c = lvl_c.matrix_sys.create_vector_r();
         GlobalSystemVector v_c = lvl_c.matrix_sys.create_vector_r();
         lvl_f.transfer_sys.rest(d_f, r_c);
         dump_vec((String("rest_to_L") + stringify(lev_c)).c_str(), r_c.local(), cx, cy);
         // coarse vector: a function of the coarse space (1 + 2x - y) plus key-valued noise
-        for(Index k = 0; k < cx.size(); ++k) v_c.local()(k, 1.0 + 2.0 * cx(k) - cy(k));
+        for(Index k = 0; k < cx.size(); ++k) v_c.local()(k, Coords<ShapeType::dimension>::lin(cx(k), cy(k)));
         lvl_f.transfer_sys.prol(p_f, v_c);
         dump_vec((String("prol_lin_to_L") + stringify(lev_f)).c_str(), p_f.local(), fx, fy);
         for(Index k = 0; k < cx.size(); ++k) v_c.local()(k, key_value(cx(k), cy(k), data_seed + 2000u + std::uint64_t(lev_c)));
@@ -359,10 +377,9 @@ namespace C13
   template<typename SpaceTag_> struct SpaceSel;
   struct Q1 {}; struct Q2 {};
 
-  template<typename Space_>
+  template<typename Space_, typename ShapeType = Shape::Hypercube<2>>
   void main_space(SimpleArgParser& args, Dist::Comm& comm, std::uint64_t data_seed)
   {
-    typedef Shape::Hypercube<2> ShapeType;
     typedef Geometry::ConformalMesh<ShapeType> MeshType;
     typedef Trafo::Standard::Mapping<MeshType> TrafoType;
     typedef typename Space_::template Element<TrafoType> SpaceType;
@@ -493,7 +510,10 @@ int main(int argc, char* argv[])
   g_sched = sched; g_sched_state = mix64(sched * 1000003ull + std::uint64_t(comm.rank()));
   try
   {
-    if(space == "stokes") C13::main_stokes(args, comm, data);
+    if(space == "tria1") C13::main_space<C13::L1, Shape::Simplex<2>>(args, comm, data);
+    else if(space == "tria2") C13::main_space<C13::L2, Shape::Simplex<2>>(args, comm, data);
+    else if(space == "hexa1") C13::main_space<C13::L1, Shape::Hypercube<3>>(args, comm, data);
+    else if(space == "stokes") C13::main_stokes(args, comm, data);
     else if(space == "q2") C13::main_space<C13::L2>(args, comm, data);
     else C13::main_space<C13::L1>(args, comm, data);
   }
